@@ -103,6 +103,32 @@ def generate():
     v, why = astlib.try_flag(every_path)
     out.append("Definition use_fsync_on_every_write_path : bool := %s.%s" % (astlib.coq_bool(bool(v)), "" if why is None else " (* %s *)" % why))
 
+    def always_writes():
+        """every update_file call on an entry that is not busy reaches executor.submit(... _write_file ...): the branch that
+        submits starts with _unload_file and there is no return inside the locked block"""
+        m = astlib.module("klongpy/db/file_cache.py")
+        uf = astlib.find_func(astlib.find_class(m, "FileCache"), "update_file")
+        withs = [n for n in uf.body if isinstance(n, ast.With) and ast.unparse(n.items[0].context_expr) == "self.file_futures_lock"]
+        if len(withs) != 1:
+            raise ShapeError("update_file: one locked block expected")
+        if any(isinstance(n, (ast.Return, ast.Raise)) for n in ast.walk(withs[0]) if not isinstance(n, ast.Assert)):
+            return False
+        branch = None
+        for n in ast.walk(withs[0]):
+            if isinstance(n, ast.If) and any(astlib.calls_in(x, "submit") for x in n.body):
+                branch = n
+        if branch is None:
+            raise ShapeError("update_file: no branch that submits the write")
+        if ast.unparse(branch.test) != "info is None or not info[0]":
+            raise ShapeError("update_file: test of the writing branch: %s" % ast.unparse(branch.test))
+        body = [ast.unparse(x) for x in branch.body]
+        if len(body) != 4 or body[0] != "self._unload_file(file_name)" or "self.executor.submit(" not in body[1] or \
+                not body[2].startswith("self.file_futures[file_name] = (True, claim, future)") or body[3] != "write_applied = True":
+            return False
+        return True
+    v, why = astlib.try_flag(always_writes)
+    out.append("Definition update_always_writes : bool := %s.%s" % (astlib.coq_bool(bool(v)), "" if why is None else " (* %s *)" % why))
+
     def process_independent():
         h = astlib.module("klongpy/db/helpers.py")
         fn = astlib.find_func(h, "key_to_file_path")
@@ -239,12 +265,26 @@ for job in jobs:
     if len(job) > 3 and job[3]:
         root = os.path.join(root, job[3])       # the store directory (may not exist yet) below the traced base directory
     conc = mode == "set-during-load"
+    torn = job[4] if len(job) > 4 else []
     st = None
     last = len(sets) - 1
     for i, (k, size, fill) in enumerate(sets):
+        if i in torn:
+            # another process wrote this value and was killed between write and fsync (the machine stays up):
+            # the data is in the file, unsynced; the store object of that process is gone
+            from klongpy.db.helpers import serialize_obj
+            mark(n); n += 1
+            if st is not None:
+                st.cache.executor.shutdown(wait=True)
+            st = None
+            with open(os.path.join(root, k), "wb") as f:
+                f.write(serialize_obj(bytes([fill]) * size))
+            continue
         if st is None and not (conc and i == last):
             mark(n); n += 1
             st = KeyValueStorage(root)            # construction is part of the first set's segment
+            if mode == "recovery":
+                st.get(k) if os.path.exists(os.path.join(root, k)) else None
             do_set(st, root, k, bytes([fill]) * size)
             if mode == "hardlink" and not failed:
                 os.link(os.path.join(root, k), os.path.join(job[0], "snapshot-of-" + k.replace("/", "_")))
@@ -284,6 +324,8 @@ for job in jobs:
             del fcm.__dict__["open"]
             continue
         mark(n); n += 1
+        if mode == "recovery" and os.path.exists(os.path.join(root, k)):
+            st.get(k)                             # the recovering process reads what is there and sets it again
         do_set(st, root, k, bytes([fill]) * size)
     mark(n); n += 1
     st.cache.executor.shutdown(wait=True)
@@ -479,6 +521,23 @@ def real_to_checker_sets(sets, per_set, prefix=""):
     return out
 
 
+def merge_torn(ck, torn):
+    """the events of an interrupted foreign write (open, write, no fsync) are prepended to the next completed set of the
+    sequence: the checker then requires that set to make the value durable whatever it found"""
+    out, carry = [], []
+    for i, (name, tok, evs) in enumerate(ck):
+        if i in torn:
+            # its write carried the token of entry i; the following set writes the same value under its own token,
+            # so the carried write is given the next set's token below
+            carry = carry + [e for e in evs if e[0] != "close"]
+            continue
+        if carry:
+            evs = [([e[0], e[1], tok] if e[0] == "write" else e) for e in carry] + evs
+            carry = []
+        out.append([name, tok, evs])
+    return out
+
+
 KEYS = ["a", "b", "d/e", "d/f", "g/h/i"]
 
 
@@ -511,7 +570,7 @@ def check_traces(chk, rng, workdir, flags, bufsize):
     for j, seq in enumerate(seqs):
         root = os.path.join(workdir, "tr%d_r" % j)
         os.makedirs(root)
-        jobs.append([root, seq, "", ""])
+        jobs.append([root, seq, "", "", []])
     # special scenarios (deterministic):
     #  - a store opened on a directory that does not exist yet (flat and nested): traced from the construction on
     #  - an overwrite of a key whose file has a second hard link (a snapshot copy outside the store)
@@ -522,12 +581,14 @@ def check_traces(chk, rng, workdir, flags, bufsize):
         ("freshn_r", "x/y", "", [["b", 9, 68], ["b", 5000, 69], ["g/h/i", 3, 70]]),
         ("hl_r", "st", "hardlink", [["k", 20, 71], ["k", 30, 72], ["d/e", 5, 73], ["d/e", 6, 74]]),
         ("long_r", "", "", [["L" * 201, 5, 75], ["d/" + "M" * 255, 6, 76], ["N" * 230 + "/" + "P" * 210, 7, 77], ["L" * 201, 8, 78]]),
+        ("rec_r", "", "recovery", [["k", 20, 71], ["k", 30, 72], ["k", 30, 72], ["k", 30, 72], ["o", 5, 73], ["k", 30, 72]]),
         ("conc_r", "", "set-during-load", [["o", 9, 70], ["k", 20, 71], ["k", 30, 72]]),
     ]
+    TORN = {"rec_r": [1]}       # entry 1 of the recovery scenario is written by a process killed between write and fsync
     for nm, rel, mode, seq in special:
         base = os.path.join(workdir, "tr" + nm)
         os.makedirs(base)
-        jobs.append([base, seq, mode, rel])
+        jobs.append([base, seq, mode, rel, TORN.get(nm, [])])
     seqs = seqs + [x[3] for x in special]
     conc_seq = special[-1][3]
     try:
@@ -537,7 +598,7 @@ def check_traces(chk, rng, workdir, flags, bufsize):
         for job in jobs:
             shutil.rmtree(job[0], ignore_errors=True)
     chk.count("concurrent_set_during_load_scenarios")
-    chk.count("fresh_root_and_hardlink_and_long_key_scenarios", 4)
+    chk.count("fresh_root_and_hardlink_and_long_key_and_recovery_scenarios", 5)
     bad_img = recorded_final_images(chk, conc_seq, all_sets[-1], workdir)
     for j, seq in enumerate(seqs):
         per_set = all_sets[j]
@@ -547,7 +608,7 @@ def check_traces(chk, rng, workdir, flags, bufsize):
         lens = [serialize_len(s) for _, s, _ in seq]
         model_sets = [[key_to_name(prefix + k), [0] * l] for (k, _, _), l in zip(seq, lens)]
         reqs.append(sx(["trace", 1 if fl else 0, 1 if uf else 0, 1 if sd else 0, bufsize, ["sets"] + model_sets]))
-        ck = real_to_checker_sets(seq, per_set, prefix)
+        ck = merge_torn(real_to_checker_sets(seq, per_set, prefix), jobs[j][4])
         keys = sorted(set(tuple(key_to_name(k)) for k in KEYS) | set(tuple(key_to_name(prefix + k)) for k, _, _ in seq))
         reqs.append(sx(["check", 1, ["keys"] + [list(k) for k in keys], ["sets"] + ck]))
         reqs.append(sx(["check", 0, ["keys"] + [list(k) for k in keys], ["sets"] + ck]))
@@ -561,6 +622,10 @@ def check_traces(chk, rng, workdir, flags, bufsize):
         # call-by-call comparison
         mt = [[[e[0], list(e[1])] + ([e[2]] if e[0] == "write" else []) for e in evs] for evs in mtrace]
         rt = [[[e[0], list(e[1])] + ([e[2]] if e[0] == "write" else []) for e in evs] for evs in per_set]
+        for ti in jobs[j][4]:
+            # the interrupted foreign write is not a set of the store: compare nothing there
+            if ti < len(mt) and ti < len(rt):
+                mt[ti] = rt[ti] = []
         if mt != rt and bad_corr is None:
             i = next(i for i in range(len(seq)) if i >= len(mt) or mt[i] != rt[i])
             bad_corr = {"kind": "trace-correspondence", "sets": seq, "failing_set": i, "payload_len": lens[i], "bufsize": bufsize,
@@ -571,7 +636,7 @@ def check_traces(chk, rng, workdir, flags, bufsize):
             i_fail = None
             for i in range(1, len(seq) + 1):
                 prefix = (jobs[j][3] + "/") if jobs[j][3] else ""
-                ck = real_to_checker_sets(seq[:i], per_set[:i], prefix)
+                ck = merge_torn(real_to_checker_sets(seq[:i], per_set[:i], prefix), jobs[j][4])
                 keys = sorted(set(tuple(key_to_name(k)) for k in KEYS) | set(tuple(key_to_name(prefix + k)) for k, _, _ in seq))
                 r = chk.run_model([sx(["check", 1, ["keys"] + [list(k) for k in keys], ["sets"] + ck])])[0]
                 if r != 1:
@@ -942,7 +1007,7 @@ def run(tier, replay=None):
         proof["error"] = "forbidden declarations: %r" % hits
         proof["broken"] = hits[0]
     fl = "flush_before_fsync : bool := true" in gen
-    uf = "kvs_use_fsync : bool := true" in gen and "use_fsync_on_every_write_path : bool := true" in gen
+    uf = "kvs_use_fsync : bool := true" in gen and "use_fsync_on_every_write_path : bool := true" in gen and "update_always_writes : bool := true" in gen
     sd = "sync_new_dirs : bool := true" in gen
     workdir = os.path.join(VERIF, ".work", "C17-%d" % os.getpid())
     shutil.rmtree(workdir, ignore_errors=True)
